@@ -24,10 +24,10 @@ ApplyOp(T, r) ==
   LET N == Noted(T, r.op, r.status, r.fail_at)
       ok == r.status = "OK"
   IN CASE r.op \in EntryOps -> IF ok THEN Entry(N, r.op, r.file_id, r.ino_ret) ELSE N
-       [] r.op = "create" -> IF ok THEN OpenH(Entry(N, r.op, r.file_id, r.ino_ret), r.op, r.ino_ret, r.h_ret) ELSE N
+       [] r.op = "create" -> IF ok THEN OpenH(Entry(N, r.op, r.file_id, r.ino_ret), r.op, r.ino_ret, r.h_ret, r.flags % 4 = 0) ELSE N
        [] r.op = "forget" -> Forget(N, r.p, r.n)
        [] r.op = "batch_forget" -> ForgetAll(N, r.items)
-       [] r.op \in {"open", "opendir"} -> IF ok THEN OpenH(N, r.op, r.p, r.h_ret) ELSE N
+       [] r.op \in {"open", "opendir"} -> IF ok THEN OpenH(N, r.op, r.p, r.h_ret, r.op = "opendir" \/ r.flags % 4 = 0) ELSE N
        [] r.op \in {"release", "releasedir"} -> ReleaseH(N, r.op, r.p, r.h, r.status)
        [] r.op = "getattr_h" -> HandleFile(UseH(N, r.op, r.p, r.h, r.status), r.op, r.p, r.h, r.status, r.af)
        [] r.op \in {"read", "write", "flush", "fsync"} -> UseH(N, r.op, r.p, r.h, r.status)
